@@ -229,7 +229,7 @@ class C07(Spec):
             plan = [(3000, [4, 8, 16, 33, 70], [10, 30, 80, 200], 1),
                     (300, [130, 260, 520], [300, 600, 1200], 1),
                     (40, [1100, 2100, 4200], [10000], 64),
-                    (4, [9000, 16000], [100000], 256)]
+                    (3, [5000, 9000], [60000], 256)]
         ci = 0
         for count, pools, lens, every in plan:
             for _ in range(count):
